@@ -58,7 +58,7 @@ def run(chk, replay=None):
         ('NixFile', 'MC_NixFile_c20c_q.cfg', S * 4, {'names': chk.seed, 'ignore_handles': True}, None),
         ('MC_NixRetrieval', 'MC_NixRetrieval_tag1.cfg', S, {'axes': 'quick'}, None),
         ('MC_NixRetrieval', 'MC_NixRetrieval_slice.cfg', S, {'axes': 'quick'}, None),
-        ('MC_NixRetrieval', 'MC_NixRetrieval_multi.cfg', S * 2, {'axes': 'quick'}, None),
+        ('MC_NixRetrieval', 'MC_NixRetrieval_multi.cfg', max(1, S // 2), {'axes': 'quick'}, None),
         ('NixData', 'MC_NixData_r2_q.cfg', max(1, S // 2), {'types': ['Double', 'String', 'Int8', 'Bool'], 'compressions': ['None']}, None),
         ('NixData', 'MC_NixData_r3_q.cfg', max(1, S // 2), {'types': ['UInt64', 'String'], 'compressions': ['Deflate']}, None),
         ('NixData', 'MC_NixData_view2_q.cfg', max(1, S // 2), {'types': ['Float', 'String'], 'compressions': ['None']}, None),
